@@ -1,7 +1,8 @@
 """C12 - GCP losses, gradients and their tensor-level evaluation are mutually consistent.
 
 Sub-checks (the "check" key of a case):
-  handles   g(x, m) == d/dm f(x, m) on a grid of the loss's data x model domain (5-point stencil of the REAL f)
+  handles   g(x, m) == d/dm f(x, m) on a grid of the loss's data x model domain (complex step and 5-point stencil
+            of the REAL f; one-sided derivatives at the Huber kink)
   setup     fg_setup.setup(objective, data) with in-domain data selects the same pair as setup(objective, None)
   evaluate  fg.evaluate: F == weighted entrywise sum, G == explicit index-sum MTTKRP of W*g (tight) and
             G == stencil derivative of the objective in EVERY factor coordinate (end to end)
@@ -29,8 +30,12 @@ RULE = ("product explorer.  handles: one case per (loss, extra parameter), the c
         "list of the tier inside.  Non-trivial: the compared gradient / objective is non-zero and the tensor has "
         ">= 2 cells.")
 ASSUMPTIONS = [
-    "the derivative of the REAL loss function is observed by a 5-point central stencil in float64 (truncation "
-    "error <= 1e-11 relative for the step sizes used, measured margin in the evidence counters)",
+    "the derivative of the REAL loss handle is observed twice: by the complex step Im f(x, m+ih)/h (the nine "
+    "analytic losses are log/exp/power compositions that numpy evaluates on complex arguments; tolerance 1e-12, "
+    "measured worst error 3e-15) and by a 5-point central stencil in float64 where that is well conditioned "
+    "(model value >= 1e-3 for the bounded losses; tolerance 1e-8, measured worst error 2e-10); Huber (piecewise "
+    "quadratic) by the stencil away from the kink and by one-sided 3-point formulas at the kink; the measured "
+    "worst errors are evidence counters",
     "Kruskal values of the reference side are computed by mc/refmodel.py (einsum of the definition)",
     "the derivative identity is decided on a finite grid of each loss's domain, not on all of R",
     "1-way models are outside the quantifier (tensor.mttkrp documents them as invalid); empty sample lists and "
